@@ -3632,13 +3632,18 @@ class DecVar(Vars):
             events = ([events] if isinstance(events, (str, Real))
                       else list(events))
 
+        # check every scenario before any is moved: a rejected call leaves
+        # the events as they were
+        rest = list(self.event_adapt[0]) if self.event_rest else []
         for event in events:
             index = self.dro_model.series_scen[event]
-            if self.event_rest and index in self.event_adapt[0]:
-                self.event_adapt[0].remove(index)
+            if index in rest:
+                rest.remove(index)
             else:
                 raise KeyError('Wrong scenario index or {0} '.format(event) +
                                'has been redefined.')
+        if self.event_rest:
+            self.event_adapt[0] = rest
 
         if not self.event_adapt[0]:
             self.event_adapt.pop(0)
